@@ -146,6 +146,14 @@ def cosim(design, vectors, sequential, top_name=None, text=None, stop_on_x=True)
         return True
 
     out.status = 'compared'
+
+    def range_x():
+        """an out-of-range select / memory index in the emitted text: 4-state Verilog reads x there while the simulator has a
+        defined value -- reported (never seen on the unchanged tree), unlike division by zero which the property excludes"""
+        for k in it.x_kinds:
+            if 'out_of_range' in k:
+                return k
+        return None
     x0 = it.x_events
     try:
         # power-up: all inputs 0
@@ -168,6 +176,9 @@ def cosim(design, vectors, sequential, top_name=None, text=None, stop_on_x=True)
             it.settle()
             if it.x_events != xb:
                 out.x_skipped += 1
+                if range_x():
+                    out.mismatch = dict(when='settled', cycle=cyc + 1, output='(x)', width=0, simulator=0, verilog=-1, inputs=vec, x_kind=range_x())
+                    return out
                 if sequential and stop_on_x:
                     out.detail = 'x source reached: %s' % it.x_kinds
                     return out
@@ -181,6 +192,9 @@ def cosim(design, vectors, sequential, top_name=None, text=None, stop_on_x=True)
                 it.posedge()
                 if it.x_events != xb:
                     out.x_skipped += 1
+                    if range_x():
+                        out.mismatch = dict(when='after-edge', cycle=cyc + 1, output='(x)', width=0, simulator=0, verilog=-1, inputs=vec, x_kind=range_x())
+                        return out
                     if stop_on_x:
                         out.detail = 'x source reached: %s' % it.x_kinds
                         return out
@@ -195,6 +209,7 @@ def cosim(design, vectors, sequential, top_name=None, text=None, stop_on_x=True)
         out.detail = repr(e)[:300]
     finally:
         out.toggled = sum(1 for s in seen.values() if len(s) >= 2)
+        out.x_kinds = dict(it.x_kinds)
     return out
 
 
